@@ -5,10 +5,12 @@
 package hist
 
 import (
+	"bytes"
 	"context"
 	"crypto/sha256"
 	"encoding/hex"
 	"fmt"
+	"net/http"
 	"os"
 	"path/filepath"
 	"runtime/debug"
@@ -19,6 +21,7 @@ import (
 	"time"
 
 	"github.com/superfly/litefs"
+	lfshttp "github.com/superfly/litefs/http"
 	"github.com/superfly/ltx"
 	"verif/lab"
 	"verif/mon"
@@ -433,6 +436,32 @@ func (r *runner) apply(ev string) bool {
 			d := p.DB(f[1])
 			r.record(f[1], d.Pos(), &oracle.Image{PageSize: r.cfg.PageSize})
 		}
+	case "recover":
+		if p := r.c.Primary(); p != nil {
+			if err := p.Store.Recover(context.Background()); err != nil {
+				r.viol("C04/recover-error", "Store.Recover on primary: %v", err)
+				return false
+			}
+		}
+	case "towal":
+		if p := r.c.Primary(); p != nil {
+			cur, ok := r.current(p, f[1])
+			if ok && cur.N() > 0 && !isWAL(cur) {
+				conn := pager.NewConn(p.M, f[1], r.nextOwner(), cur.PageSize)
+				conn.Det = true
+				res := conn.RunRTx(pager.RTx{ToWAL: true, Final: "DELETE", Outcome: "commit"}, cur)
+				conn.Close()
+				if res.Err != nil || !res.Committed {
+					r.viol("C01/towal-failed", "switching %q to WAL failed at %q: %v", f[1], res.ErrStep, res.Err)
+					return false
+				}
+				r.record(f[1], p.DB(f[1]).Pos(), res.Intended)
+			}
+		}
+	case "import":
+		if p := r.c.Primary(); p != nil {
+			return r.importDB(p, f[1], f[2])
+		}
 	case "create":
 		if p := r.c.Primary(); p != nil {
 			if d := p.DB(f[1]); d == nil || d.PageN() == 0 {
@@ -443,6 +472,38 @@ func (r *runner) apply(ev string) bool {
 		r.res.Harness = "unknown event " + ev
 		return false
 	}
+	return true
+}
+
+// importDB posts an image to the primary's /import endpoint through the real HTTP client.
+// kind: "s" (2 pages, same page size), "b" (300 pages), "w" (2 pages, WAL header).
+func (r *runner) importDB(p *lab.Node, name, kind string) bool {
+	ps := r.cfg.PageSize
+	n := uint32(2)
+	if kind == "b" {
+		n = 300
+	}
+	var base uint32 = 0x400000
+	if d := p.DB(name); d != nil {
+		base += uint32(d.Pos().TXID) << 8
+	}
+	img := &oracle.Image{PageSize: ps}
+	img.Pages = append(img.Pages, pager.MakePage1(ps, base, n, kind == "w", 7))
+	for pg := uint32(2); pg <= n; pg++ {
+		img.Pages = append(img.Pages, pager.MakePage(ps, pg, base))
+	}
+	cl := lfshttp.NewClient()
+	cl.HTTPClient = &http.Client{Transport: r.c.Net.Transport("client")}
+	err := cl.Import(context.Background(), "http://"+p.Cfg.Name, name, bytes.NewReader(img.Bytes()))
+	if err != nil {
+		r.viol("C16/import-failed", "importing a valid %d-page image into %q failed: %v\nhandler panics: %v\nexit codes: %v", n, name, err, r.c.Net.Panics, p.ExitCodes())
+		return false
+	}
+	want := img.Clone()
+	for _, off := range []int{24, 25, 26, 27, 40, 41, 42, 43} {
+		want.Pages[0][off] = 0
+	}
+	r.record(name, p.DB(name).Pos(), want)
 	return true
 }
 
@@ -677,6 +738,19 @@ func (r *runner) enabled() []string {
 		if has("drop") {
 			out = append(out, "drop:"+db)
 		}
+		if has("towal") && !isWAL(cur) {
+			out = append(out, "towal:"+db)
+		}
+		if db == "a" {
+			for _, k := range []string{"s", "b", "w"} {
+				if has("import:" + k) {
+					out = append(out, "import:"+db+":"+k)
+				}
+			}
+		}
+	}
+	if has("recover") && p != nil {
+		out = append(out, "recover")
 	}
 	for _, n := range []string{"R1", "R2"} {
 		if r.down[n] {
